@@ -188,7 +188,7 @@ func checkMulti(c Case) (out []ev.Finding) {
 const baseTemplate = `@C0@filetype txt;
 @C1@filetype json;
 
-@C2@struct ST(
+@C2@struct @TNAME@(
     @C3@int a "help a",
     txt f "help f" "@OUTNAME@",
 )
@@ -198,7 +198,7 @@ const baseTemplate = `@C0@filetype txt;
     in  float    y,
     in  string   s,
     in  map      m,
-    in  ST       st,
+    in  @TNAME@       @PNAME@,
     in  int[]    xs,
     in  map<int> mi,
     @C6@out int      o,
@@ -230,7 +230,7 @@ const baseTemplate = `@C0@filetype txt;
         y  = @FLOAT@,
         s  = @STR@,
         m  = @MAP@,
-        st = @STRUCT@,
+        @PNAME@ = @STRUCT@,
         xs = @ARR@,
         mi = @TMAP@,
     ) using (
@@ -244,7 +244,7 @@ const baseTemplate = `@C0@filetype txt;
         y  = 1.5,
         s  = "s",
         m  = {},
-        st = {a: 1, f: null},
+        @PNAME@ = {a: 1, f: null},
         xs = [self.a, S1.o],
         mi = {"k": self.a},
     )
@@ -291,6 +291,9 @@ var slots = []slot{
 	{"VMEM", "8", []string{"0.7", "1024", "3.5"}},
 	{"VOL", "strict", []string{"false"}},
 	{"LOCAL", "true", []string{"false"}},
+	// identifiers wider than any column the formatter pads to
+	{"TNAME", "ST", []string{"SAMPLE_LEVEL_ALIGNMENT_METRICS_X", "T", "A_TYPE_NAME_OF_EXACTLY_29_CHARS", "A_TYPE_NAME_OF_EXACTLY_30_CHARSX", "A_STRUCT_TYPE_WITH_A_NAME_OF_MORE_THAN_FORTY_CHARACTERS"}},
+	{"PNAME", "st", []string{"a_parameter_name_of_more_than_thirty_five_characters", "p", "a_parameter_name_of_exactly_35_char", "a_parameter_name_of_exactly_34_cha"}},
 }
 
 func instantiate(sub map[string]string, commentAt map[int]string) string {
